@@ -430,6 +430,12 @@ class MeiParser(object):
             # compute the ppq from the durations
             # add 4 to be sure to not go under 1 ppq
             durs.append(4)
+            # measure rests last a whole measure: the beat units must be representable too
+            for el in self.music_el.xpath(".//*[@meter.unit]"):
+                durs.append(int(el.get("meter.unit")))
+            for el in self.music_el.iter(self._ns_name("meterSig")):
+                if el.get("unit") is not None:
+                    durs.append(int(el.get("unit")))
             durs = np.array(durs)
             # remove elements smaller than 1
             durs = durs[durs >= 1]
